@@ -5,6 +5,9 @@ A guide for writing rules, not a check: every lookup of a function or class thro
 expanded views inline) is recorded while the property's rules run on the clean tree; functions of the anchored files
 that are never looked up — nor contained in / containing a looked-up node — are listed with their size.  Rules that scan
 whole modules (ast.walk over the tree) are not credited, so the list over-approximates."""
+import os as _os, sys as _sys
+if _sys.version_info[:2] != (3, 12) and _os.path.exists("/venv/bin/python"):
+    _os.execv("/venv/bin/python", ["/venv/bin/python"] + _sys.argv)      # same interpreter as ./check (ast.unparse differs between versions)
 import ast, json, os, sys
 sys.path.insert(0, os.path.dirname(os.path.dirname(os.path.abspath(__file__))))
 from sa.engine import core
